@@ -114,6 +114,7 @@ type run struct {
 	heldAtReturn   int
 	harnessProblem string
 	timed          timedInfo
+	cfg            cfgInfo
 }
 
 var (
@@ -396,9 +397,15 @@ func (r *run) classifyAnswer() (string, string) {
 
 // expectReturn waits for the call to return and compares with the allowed set.
 func (r *run) expectReturn(rule string, allowed []string, note string) {
+	r.expectReturnIn(progressBound, rule, allowed, note)
+}
+
+// expectReturnIn: expectReturn with an explicit progress bound (the configured-
+// threshold cells wait for a threshold that is seconds away, plus the bound).
+func (r *run) expectReturnIn(bound time.Duration, rule string, allowed []string, note string) {
 	r.over = true
 	got := resNone
-	if r.await(progressBound, "return") != "" {
+	if r.await(bound, "return") != "" {
 		r.mu.Lock()
 		got = r.result
 		held := 0
